@@ -11,7 +11,8 @@ THEOREMS = {
             "Backend.C06_pinned_order_violates", "Backend.C06_removed_logger_sink_not_flushed_unrepaired", "Backend.C06_removed_logger_sink_flushed",
             "Obligations.C06_extracted"],
     "C09": ["Backend.C09_reads_committed", "Backend.C09_drain_publishes", "Backend.C09_blocked_call_resumes", "Backend.C09_obs_ret1",
-            "Backend.C09_call_after_drain_accepted", "Backend.C09_drain_rule_needed", "Obligations.C09_backend_extracted"],
+            "Backend.C09_call_after_drain_accepted", "Backend.C09_empty_queue_retry_granted", "Backend.C09_empty_queue_call_accepted",
+            "Backend.C09_drain_rule_needed", "Obligations.C09_backend_extracted"],
 }
 MODULES = {"C05": ["QuillModel.Props.C05"], "C06": ["QuillModel.Props.C06"], "C09": ["QuillModel.Props.C09Backend"]}
 OBLIG = ["QuillModel.Obligations.BackendB"]
